@@ -159,6 +159,9 @@ func NewInProcessTransportListener(addr InProcessAddr) TransportListener {
 func (l *inProcessTransportListener) Close() error {
 	l.closedMu.Lock()
 	defer l.closedMu.Unlock()
+	if l.closed {
+		return errors.New("listener is already closed")
+	}
 	inProcListenersMu.Lock()
 	if inProcListeners[l.addr] == l {
 		delete(inProcListeners, l.addr)
